@@ -27,7 +27,10 @@ SHARDS = {"quick": 1, "thorough": 16}
 
 NAMES = ["a.js", "b c.js", "100%.js", "x%20y.js", "h#1.js", "q?v=1.js", "amp&x.css", "quo'te.js", "dq\"x.css", "ünï.js", "中文.css",
          "sub/dir/n.js", "sub/.hidden.js", ".dot.css", "sp ace/de ep/f.js", "plus+.js", "semi;colon.css", "tilde~.js", "eq=.js", "bs\\x.js",
-         "e\u0301 decomposed.js", "A\u030angstrom.css", "deep/er/and/deeper/f.js", "ﬁ-ligature.js"]
+         "e\u0301 decomposed.js", "A\u030angstrom.css", "deep/er/and/deeper/f.js", "ﬁ-ligature.js",
+         # long names and long paths (each component within the file system's 255-byte limit)
+         "long-" + "n" * 230 + ".js", "l" * 200 + "/" + "m" * 200 + "/" + "deep file " + "o" * 180 + ".css", "/".join("d%d" % k for k in range(40)) + "/leaf.js",
+         "é" * 110 + ".js"]
 
 
 def sha(path):
